@@ -87,8 +87,8 @@ func main() {
 		}
 	}
 	// longer messages (several keystream blocks)
-	for _, n := range []int{127, 128, 129, 255, 256, 300} {
-		if *tier != "thorough" && n > 129 {
+	for _, n := range []int{127, 128, 129, 255, 256, 257, 300, 511, 512, 513, 1000, 2048} {
+		if *tier != "thorough" && n > 257 {
 			continue
 		}
 		for _, alg := range []uint8{1, 2} {
